@@ -198,6 +198,98 @@ def definition_query_order(amask: int, dperm: int, qperm: int, mixed: bool):
         check("versions-independent-of-definition-and-query-order", results[0] == results[1], (results[0], results[1]))
 
 
+HELD_SRC = (
+    "G = 1\n"
+    "L = [1]\n"
+    "def h():\n"
+    "    return 1\n"
+    "@m.memento_function\n"
+    "def a(x=0):\n"
+    "    return G + L[0] + h() + x\n"
+    "@m.memento_function\n"
+    "def b():\n"
+    "    return a() + 1\n"
+    "@m.memento_function\n"
+    "def c():\n"
+    "    return a.force_local()() + b() + 2\n"
+)
+HELD_EVENTS = ["none", "rebind-G", "mutate-L", "rebind-h", "redefine-a", "redefine-a-identically", "rebind-G-and-back"]
+HELD_HANDLES = ["a", "b", "c", "a.force_local", "a.partial", "b.ignore_result", "c.with_context_args", "clone-of-clone"]
+HELD_FIRST = [(), (0,), (3,), (3, 4, 5, 6, 7), (0, 1, 2, 3, 4, 5, 6, 7)]
+
+
+def _held_event(prog, ev):
+    d = prog.mod.__dict__
+    if ev == "rebind-G":
+        d["G"] = 2
+    elif ev == "mutate-L":
+        d["L"][0] = 5
+    elif ev == "rebind-h":
+        prog.exec("def h():\n    return 2\n")
+    elif ev == "redefine-a":
+        prog.exec("@m.memento_function\ndef a(x=0):\n    return G + L[0] + h() + x + 10\n")
+    elif ev == "redefine-a-identically":
+        prog.exec("@m.memento_function\ndef a(x=0):\n    return G + L[0] + h() + x\n")
+    elif ev == "rebind-G-and-back":
+        d["G"] = 2
+        d["_held"][3].version()
+        d["G"] = 1
+
+
+@obligation(
+    "C03.held_handles_query_order",
+    covers=("event", "clone-queried-before-its-source", "nothing-queried-before-the-event"),
+    split={"ev": list(range(len(HELD_EVENTS))), "first": list(range(len(HELD_FIRST)))},
+    bounds="program a (reads a global, a list global, a plain helper), b -> a, c -> a.force_local(), b; handles held in variables from the "
+           "start: a, b, c and the modifier clones a.force_local(), a.partial(x=1), b.ignore_result(), c.with_context_args(..), "
+           "a.force_local().ignore_result(); a subset of the handles (5 choices: none, a, one clone, all clones, all) is queried first; then "
+           "one of %d events (global rebound / list mutated in place / helper rebound / a redefined / redefined identically / global rebound, "
+           "a clone queried, and bound back); then the 8 handles are queried in any rotation of any of 6 base orders (48) - the versions "
+           "equal those of the canonical order in a process that queried nothing before, and every clone has its source's version" % len(HELD_EVENTS),
+    variables="choice: event, first-queried subset, base order, rotation",
+    budget_s={"quick": 170, "thorough": 600},
+    choice_vars=4,
+)
+def held_handles_query_order(ev: int, first: int, base: int, rot: int):
+    base = pick(base, 6)
+    rot = pick(rot, 8)
+    with concrete_region():
+        n = len(HELD_HANDLES)
+        bases = [list(range(n)), list(reversed(range(n))), [3, 4, 5, 6, 7, 0, 1, 2], [7, 2, 5, 1, 4, 0, 6, 3], [1, 3, 0, 5, 2, 7, 4, 6], [6, 0, 4, 2, 7, 3, 1, 5]]
+        order = bases[base][rot:] + bases[base][:rot]
+        results = []
+        for (fs, od) in (((), list(range(n))), (HELD_FIRST[first], order)):
+            sb = Sandbox(kinds="memory")
+            clear_process_state()
+            prog = Program("vpc03held")
+            try:
+                prog.exec(HELD_SRC)
+                a, b, c = prog.a, prog.b, prog.c
+                held = [a, b, c, a.force_local(), a.partial(x=1), b.ignore_result(), c.with_context_args({"k": 1}), a.force_local().ignore_result()]
+                prog.mod.__dict__["_held"] = held
+                for i in fs:
+                    held[i].version()
+                _held_event(prog, HELD_EVENTS[ev])
+                vs = {}
+                for i in od:
+                    vs[i] = held[i].version()
+                results.append([vs[i] for i in range(n)])
+            finally:
+                prog.close()
+                sb.close()
+        if ev:
+            cover("event")
+        if not HELD_FIRST[first]:
+            cover("nothing-queried-before-the-event")
+        if min(order.index(i) for i in (3, 4, 7)) < order.index(0):
+            cover("clone-queried-before-its-source")
+        check("versions-independent-of-what-was-queried-when", results[0] == results[1], (HELD_EVENTS[ev], HELD_FIRST[first], order, results))
+        r = results[1]
+        if HELD_EVENTS[ev] not in ("redefine-a", "redefine-a-identically"):
+            # (a redefined function is a new object: handles on the old one keep describing the old one's code - not claimed here)
+            check("clone-has-its-source-version", r[3] == r[0] and r[4] == r[0] and r[7] == r[0] and r[5] == r[1] and r[6] == r[2], r)
+
+
 def _chunks(full):
     """split gen_graph_source output: head (imports), one chunk per function n<i>, tail (aliases / wrappers)"""
     lines = full.split("\n")
